@@ -51,7 +51,7 @@ func (m *verifMarker) Error() string { return "verif-marker:" + m.what }
 // table holds one entry per name in endpoints. No network is touched: every
 // endpoint is a side-dialling client whose token function reports which
 // endpoint was asked to dial. The result is one of "home", "forward:<addr>",
-// "endpoint:<name>", "notfound", "nolookup" or "err:<text>".
+// "endpoint:<name>", "notfound", "nolookup", "nilconn" or "err:<text>".
 func VerifServerDial(
 	config *ServerConfig, hasHome, hasForward bool, endpoints []string,
 	domain, asAddr string,
@@ -77,10 +77,13 @@ func VerifServerDial(
 		})
 		s.endpoints[name] = ep
 	}
-	_, err := s.dial(
+	conn, err := s.dial(
 		context.Background(), &TLSHelloInfo{ServerName: domain}, asAddr,
 	)
 	if err == nil {
+		if conn == nil {
+			return "nilconn" // neither a connection nor an error
+		}
 		return "err:dial returned a connection"
 	}
 	var m *verifMarker
